@@ -533,6 +533,9 @@ def missing_files(chk, repo):
     def run(missing):
         I = Interp(repo)
         present = {f: Const(b"bytes of " + f.encode()) for f in files if f != missing}
+        if "summary.txt" in present:
+            # a well-formed summary text: the line parser is the package's own (it may be spread over helpers), only the section transforms are a marker
+            present["summary.txt"] = Const(b'Odi_SceneId="ALOS2012345678-160229"\nPdi_CntOfL15ProductFileName="6"\nPdi_L15ProductFileName01="VOL-P"\n')
         reads = []
 
         def key(k):
@@ -585,7 +588,6 @@ def missing_files(chk, repo):
                 return result
             return Fn("py", impl=impl, name=name)
         sm, vm, lm = repo.module("ceos_alos2.summary"), repo.module("ceos_alos2.volume_directory.io"), repo.module("ceos_alos2.sar_leader.io")
-        I.module_scope(sm).vars["parse_summary"] = strict_parser("parse_summary", DictS())
         I.module_scope(sm).vars["transform_summary"] = Fn("py", impl=lambda I_, a, kw: summary, name="transform_summary")
         I.module_scope(vm).vars["parse_data"] = strict_parser("volume parse_data", DictS())
         I.module_scope(vm).vars["transform_record"] = Fn("py", impl=lambda I_, a, kw: G("/", None, DictS({"vol": Const("V")})), name="transform_record")
@@ -610,8 +612,8 @@ def missing_files(chk, repo):
         st, out, reads, stubbed = run(None)
         if st != "returned" or not (isinstance(out, Obj) and out.cls == "Group"):
             raise AnalysisError(f"{where}: the complete model product does not open with the recording stubs ({(out.what if st == 'raised' else repr(out))[:100]}); the stubs do not fit the code, nothing is decided")
-        if len(set(stubbed)) < 3:
-            raise AnalysisError(f"{where}: the parsers of the three metadata readers are not reached as module-level collaborators ({sorted(set(stubbed))}); nothing is decided")
+        if len(set(stubbed)) < 2:
+            raise AnalysisError(f"{where}: the parsers of the volume directory and leader readers are not reached as module-level collaborators ({sorted(set(stubbed))}); nothing is decided")
         chk.require("TRL-P" not in reads, "C18-E9", where, "the trailer is never read", "the trailer file is read during the open: a missing trailer now fails the open", key="missing:trailer-read")
         for missing, what in (("summary.txt", "the summary"), ("VOL-P", "the volume directory"), ("LED-P", "the leader"), ("IMG-HH-P", "the first image"), ("IMG-HV-P", "the last image")):
             st, out, reads, _ = run(missing)
